@@ -8,6 +8,7 @@ package pngmeta
 //@   modular
 //@   ensures [C05,C06,C08,C09,C18] ok: old(r.avail) >= 8 ==> result1 == nil && r.pos == old(r.pos) + 8 && result0.Length == be32(r, old(r.pos)) && result0.ChunkType[0] == u8(r, old(r.pos)+4) && result0.ChunkType[1] == u8(r, old(r.pos)+5) && result0.ChunkType[2] == u8(r, old(r.pos)+6) && result0.ChunkType[3] == u8(r, old(r.pos)+7)
 //@   ensures [C05,C06,C08,C09,C18] short: old(r.avail) < 8 ==> result1 != nil && r.pos == r.len
+//@   ensures [C06,C09] end-of-stream: old(r.avail) < 4 ==> result1 == stream_err(r)
 
 // extractMetadata reads the stream from its first byte. Well-formedness of the input (as far
 // as the parser can see it) is stated with a ghost chunk chain: cs(k) is the offset of the
@@ -19,7 +20,7 @@ package pngmeta
 //@   alloc_bound r.len
 //@   ghostfun cs int int
 //@   ghost n int
-//@   scenario plain
+//@   scenario plain icc1-ok icc1-bad
 //@   requires case=plain sig: r.len >= 8 && be32(r, 0) == 0x89504E47 && be32(r, 4) == 0x0D0A1A0A
 //@   requires case=plain chain-start: cs(0) == 8 && n >= 1 && n <= 0x10000000000
 //@   requires case=plain chain-step: forall k int {cs(k+1)} :: 0 <= k && k < n ==> cs(k+1) == cs(k) + 12 + int(be32(r, cs(k)))
@@ -36,9 +37,36 @@ package pngmeta
 //@   loop 2 invariant [C05,C09,C18] skip-ihdr-rest: i <= ch.Length - 9 && r.pos == entry(r.pos) + int(i)
 //@   loop 2 decreases int(ch.Length - 9) - int(i)
 //@   loop 3 invariant [C06,C09] name: 0 <= i && i <= 80 && profileName.len == i && r.pos == entry(r.pos) + i
+//@   loop 3 invariant [C06] name-bytes-nonzero: forall j int {u8(r, entry(r.pos) + j)} :: 0 <= j && j < i ==> u8(r, entry(r.pos) + j) != 0
+//@   loop 3 invariant [C06] case=icc1-ok name-before-nul: entry(r.pos) == 41 && i <= nul
+//@   loop 3 invariant [C06] case=icc1-bad name-before-nul: entry(r.pos) == 41 && i <= nul
 //@   loop 3 decreases 80 - i
 //@   loop 4 invariant [C05,C09,C18] skip-chunk: i <= ch.Length && r.pos == entry(r.pos) + int(i)
 //@   loop 4 decreases int(ch.Length) - int(i)
+// Scenarios icc1-ok / icc1-bad: the chunk right after IHDR is a well-formed iCCP chunk (name of
+// nul (0..79) non-zero bytes, NUL, compression method 0, deflate stream up to the CRC).
+//   icc1-ok : the deflate stream inflates (assumed zlib contract) to a non-empty profile;
+//   icc1-bad: it does not, and the file ends after that chunk.
+//@   ghost nul int
+//@   requires [C06] case=icc1-ok sig: r.len >= 8 && be32(r, 0) == 0x89504E47 && be32(r, 4) == 0x0D0A1A0A
+//@   requires [C06] case=icc1-ok ihdr-first: r.len >= 45 && be32(r, 12) == 0x49484452 && be32(r, 8) == 13
+//@   requires [C06] case=icc1-ok iccp-second: be32(r, 37) == 0x69434350 && 0 <= nul && nul <= 79 && int(be32(r, 33)) > nul + 2 && 45 + int(be32(r, 33)) <= r.len
+//@   requires [C06] case=icc1-ok iccp-name: (forall j int {u8(r, 41 + j)} :: 0 <= j && j < nul ==> u8(r, 41 + j) != 0) && u8(r, 41 + nul) == 0 && u8(r, 41 + nul + 1) == 0
+//@   requires [C06] case=icc1-ok inflates: zlib_ok(r, 41 + nul + 2, int(be32(r, 33)) - nul - 2) && zlib_len(r, 41 + nul + 2, int(be32(r, 33)) - nul - 2) > 0
+//@   loop 1 invariant [C06] case=icc1-ok two-chunks: (iter == 0 && r.pos == 8 && !metadataExtracted) || (iter == 1 && r.pos == 33 && metadataExtracted && md.PixelWidth == be32(r, 16) && md.PixelHeight == be32(r, 20) && md.BitsPerComponent == uint32(u8(r, 24)))
+//@   loop 1 invariant [C06] case=icc1-ok untouched: md != nil && md.Format == "PNG" && (iter <= 1 ==> md.iccProfileData == nil && md.iccProfileErr == nil)
+//@   ensures [C05,C06] case=icc1-ok dimensions-with-profile: err == nil && md != nil && md.PixelWidth == be32(r, 16) && md.PixelHeight == be32(r, 20) && md.BitsPerComponent == uint32(u8(r, 24)) && md.Format == "PNG"
+//@   ensures [C06,C08] case=icc1-ok profile-is-inflated-chunk: md != nil && md.iccProfileErr == nil && md.iccProfileData != nil && len(md.iccProfileData) == zlib_len(r, 41 + nul + 2, int(be32(r, 33)) - nul - 2) && (forall j int :: 0 <= j && j < len(md.iccProfileData) ==> md.iccProfileData[j] == zlib_at(r, 41 + nul + 2, int(be32(r, 33)) - nul - 2, j))
+//@   ensures [C18] case=icc1-ok stops-after-profile: r.pos == 45 + int(be32(r, 33))
+//@   requires [C06] case=icc1-bad sig: r.len >= 8 && be32(r, 0) == 0x89504E47 && be32(r, 4) == 0x0D0A1A0A
+//@   requires [C06] case=icc1-bad ihdr-first: r.len >= 45 && be32(r, 12) == 0x49484452 && be32(r, 8) == 13
+//@   requires [C06] case=icc1-bad iccp-second: be32(r, 37) == 0x69434350 && 0 <= nul && nul <= 79 && int(be32(r, 33)) > nul + 2 && 45 + int(be32(r, 33)) <= r.len
+//@   requires [C06] case=icc1-bad iccp-name: (forall j int {u8(r, 41 + j)} :: 0 <= j && j < nul ==> u8(r, 41 + j) != 0) && u8(r, 41 + nul) == 0 && u8(r, 41 + nul + 1) == 0
+//@   requires [C06] case=icc1-bad ends-with-eof: stream_err(r) == io.EOF
+//@   requires [C06] case=icc1-bad does-not-inflate: !zlib_ok(r, 41 + nul + 2, int(be32(r, 33)) - nul - 2) && r.len == 45 + int(be32(r, 33))
+//@   loop 1 invariant [C06] case=icc1-bad two-chunks: (iter == 0 && r.pos == 8 && !metadataExtracted) || (iter == 1 && r.pos == 33 && metadataExtracted && md.PixelWidth == be32(r, 16) && md.PixelHeight == be32(r, 20) && md.BitsPerComponent == uint32(u8(r, 24))) || (iter == 2 && r.pos == r.len && metadataExtracted && md.PixelWidth == be32(r, 16) && md.PixelHeight == be32(r, 20) && md.BitsPerComponent == uint32(u8(r, 24)) && md.iccProfileData == nil && md.iccProfileErr != nil)
+//@   loop 1 invariant [C06] case=icc1-bad untouched: md != nil && md.Format == "PNG" && (iter <= 1 ==> md.iccProfileData == nil && md.iccProfileErr == nil)
+//@   ensures [C06] case=icc1-bad damaged-profile-is-an-error: err == nil && md != nil && md.iccProfileData == nil && md.iccProfileErr != nil && md.PixelWidth == be32(r, 16) && md.PixelHeight == be32(r, 20)
 //@   ensures [C05,C08] case=plain png-dimensions: err == nil && md != nil && md.PixelWidth == be32(r, 16) && md.PixelHeight == be32(r, 20) && md.BitsPerComponent == uint32(u8(r, 24)) && md.Format == "PNG"
 //@   ensures [C06] case=plain no-profile: md != nil && md.iccProfileData == nil && md.iccProfileErr == nil
 //@   ensures [C18] case=plain stops-at-pixel-data: r.pos == cs(n) + 8
